@@ -996,7 +996,8 @@ func (s *Server) cmdFSET(msg *Message) (resp.Value, commandDetails, error) {
 
 	var res resp.Value
 
-	if ret {
+	if ret && d.obj != nil {
+		// with XX the object may not exist: there is nothing to return then
 		res := buildObjectResponse(msg, d.obj, start, kind, precision, withfields, msg.OutputType == JSON)
 		return res, d, nil
 	}
